@@ -66,7 +66,6 @@ RowCases(r) ==
   IN {mk(vm, d, a, 0) : vm \in ViaMethod, d \in Descs, a \in {x \in args : ~(x.k = "k_key" /\ x.show)}}
      \cup {mk(vm, d, a, 0) : vm \in ViaMethod, d \in {x \in Descs : x.k # "markup"}, a \in {x \in args : x.k = "k_key" /\ x.show}}
      \cup {mk(vm, [k |-> "none", v |-> <<>>], first, 1) : vm \in ViaMethod}
-RenderUniverse == UNION {RowCases(r) : r \in RenderRows}
 
 \* ---- redirects ---------------------------------------------------------------------------------------------------
 S_HTTP == <<104, 116, 116, 112>>
@@ -81,25 +80,33 @@ Locs == {[scheme |-> s[1], host |-> s[2], path |-> p, query |-> q, hasq |-> q # 
 NoEnv == [script |-> <<>>, path |-> <<>>, qs |-> <<>>]
 NoLoc == [scheme |-> <<>>, host |-> <<>>, path |-> <<>>, query |-> <<>>, hasq |-> FALSE, frag |-> <<>>, hasf |-> FALSE]
 RVia == IF Quick THEN {<<"call", "GET">>, <<"call", "HEAD">>, <<"none", "POST">>} ELSE {"none", "environ", "call"} \X {"GET", "HEAD", "POST"}
+GoodLocs == {l \in Locs : LocDomain(l)}
+PlainLoc == [NoLoc EXCEPT !.path = <<47, 97>>]
+RCase(f, k, l, vm, rc) == [op |-> "redirect", fn |-> f, code |-> k, loc |-> l, env |-> NoEnv, via |-> vm[1], method |-> vm[2], rcls |-> rc]
+\* RequestRedirect has one code and no Response argument; redirect() returns a response (no get_response forms); a custom
+\* Response class is tried with 302; quick: the other codes with one plain target only
 RedirectUniverse ==
-  {c \in {[op |-> "redirect", fn |-> f, code |-> k, loc |-> l, env |-> NoEnv, via |-> vm[1], method |-> vm[2], rcls |-> rc] :
-          f \in {"redirect", "rr"}, k \in RedirCodes, l \in Locs, vm \in RVia, rc \in BOOLEAN} :
-     /\ LocDomain(c.loc)
-     /\ (c.fn = "rr" => c.code = 308 /\ ~c.rcls)
-     /\ (c.fn = "redirect" => c.via = "call")
-     /\ (c.rcls => c.code = 302)
-     /\ (Quick /\ c.code \notin {302, 308} => c.loc.path = <<47, 97>> /\ ~c.loc.hasq /\ ~c.loc.hasf /\ c.method = "GET")}
+  {RCase("rr", 308, l, vm, FALSE) : l \in GoodLocs, vm \in RVia}
+  \cup {RCase("redirect", k, l, <<"call", m>>, rc) : k \in {302, 308}, l \in GoodLocs, m \in {"GET", "HEAD", "POST"}, rc \in {FALSE}}
+  \cup {RCase("redirect", 302, l, <<"call", m>>, TRUE) : l \in GoodLocs, m \in {"GET", "HEAD"}}
+  \cup {RCase("redirect", k, l, <<"call", m>>, FALSE) : k \in RedirCodes \ {302, 308}, l \in (IF Quick THEN {PlainLoc} ELSE GoodLocs),
+                                                      m \in (IF Quick THEN {"GET"} ELSE {"GET", "HEAD"})}
 
 \* ---- append_slash_redirect: every PATH_INFO of <= MaxPath bytes over an alphabet with the delimiters of a URL ------
 SlashAlpha == IF Mini THEN {47, 97, 58, 63, 195, 188} ELSE IF Quick THEN {47, 97, 58, 63, 37, 195, 188, 52} ELSE {47, 97, 58, 63, 35, 37, 195, 188, 52, 49, 32, 43, 10}
 MaxPath == IF Mini THEN 3 ELSE IF Quick THEN 4 ELSE 5
+RECURSIVE SeqsTo(_, _)
+SeqsTo(S, n) == IF n = 0 THEN {<<>>} ELSE SeqsLen(S, n) \cup SeqsTo(S, n - 1)          \* (UNION is quadratic in TLC)
+SlashPaths == {<<47>> \o b : b \in {x \in SeqsTo(SlashAlpha, MaxPath - 1) : x # <<>> /\ x[Len(x)] # 47}}
+SlashPathsOK == {p \in SlashPaths : SlashDomain([script |-> <<>>, path |-> p, qs |-> <<>>])}
+SCase(k, sc, p, q, m) == [op |-> "redirect", fn |-> "slash", code |-> k, loc |-> NoLoc, env |-> [script |-> sc, path |-> p, qs |-> q],
+                          via |-> "call", method |-> m, rcls |-> FALSE]
+Q_ONE == <<113, 61, 49, 38, 114, 61, 37, 67, 51>>                                     \* q=1&r=%C3
+\* every path with the plain call; the short paths also with a query string, another code, HEAD, a SCRIPT_NAME
 SlashUniverse ==
-  {c \in {[op |-> "redirect", fn |-> "slash", code |-> k, loc |-> NoLoc, env |-> [script |-> s, path |-> p, qs |-> q],
-           via |-> "call", method |-> m, rcls |-> FALSE] :
-          k \in {308, 301}, s \in {<<>>, <<47, 97, 112, 112>>}, p \in SeqsUpTo(SlashAlpha, MaxPath), q \in {<<>>, <<113, 61, 49, 38, 114, 61, 37, 67, 51>>},
-          m \in {"GET", "HEAD"}} :
-     /\ SlashDomain(c.env)
-     /\ (c.code = 301 \/ c.method = "HEAD" \/ c.env.script # <<>> => Len(c.env.path) <= 3 /\ c.env.qs = <<>>)}
+  {SCase(308, <<>>, p, <<>>, "GET") : p \in SlashPathsOK}
+  \cup {SCase(308, <<>>, p, Q_ONE, "GET") : p \in SlashPathsOK}
+  \cup {SCase(k, sc, p, <<>>, m) : k \in {308, 301}, sc \in {<<>>, <<47, 97, 112, 112>>}, p \in {x \in SlashPathsOK : Len(x) <= 3}, m \in {"GET", "HEAD"}}
 
 \* ---- abort ------------------------------------------------------------------------------------------------------------
 RegSeq == LET codes == {p[1] : p \in Registry}
@@ -117,20 +124,22 @@ AbortUniverse ==
      a \in Aborters, k \in AbCodes, f \in {"none", "pos", "kw"}}
   \cup {[op |-> "abort", ab |-> a, reg |-> RegSeq, what |-> "response", code |-> 0, fwd |-> "none", dtext |-> <<>>] : a \in Aborters}
 
-Universe == CASE Family = "render" -> RenderUniverse
-              [] Family = "redirect" -> RedirectUniverse
-              [] Family = "slash" -> SlashUniverse
-              [] Family = "abort" -> AbortUniverse
-              [] Family = "all" -> RenderUniverse \cup RedirectUniverse \cup SlashUniverse \cup AbortUniverse
-
-\* One seed state per part, the part's cases are its successors: TLC's workers then share the table (all initial states are
-\* generated by one thread).  Universe is a constant-level definition: TLC evaluates it once.
+\* Seed states whose successors are the cases: TLC's workers then share the table (all initial states are generated by one
+\* thread).  Render: one seed per class (the cases of a class are generated from the seed, no big set is ever built);
+\* the other tables: NParts seeds, the part of a case is a key modulo NParts.
 NParts == 12
-PartKey(c) == CASE c.op = "render" -> CodeOf(c.cls) + Len(c.desc.v) + Len(c.arg.vs) + Len(c.arg.n)
-                [] c.op = "redirect" -> c.code + Len(c.loc.path) + Len(c.loc.query) + SumSeq(c.env.path)
+PartKey(c) == CASE c.op = "redirect" -> c.code + Len(c.loc.path) + Len(c.loc.query) + SumSeq(c.env.path) + Len(c.env.qs)
                 [] c.op = "abort" -> c.code + Len(c.ab.map)
-Init == case \in {[op |-> "seed", k |-> i] : i \in 0..(NParts - 1)}
-Next == case.op = "seed" /\ case' \in {c \in Universe : PartKey(c) % NParts = case.k}
+Fams == IF Family = "all" THEN {"render", "redirect", "slash", "abort"} ELSE {Family}
+Seeds == (IF "render" \in Fams THEN {[op |-> "seed", fam |-> "render", k |-> r.cls] : r \in RenderRows} ELSE {})
+         \cup {[op |-> "seed", fam |-> f, k |-> ToString(i)] : f \in Fams \ {"render"}, i \in 0..(NParts - 1)}
+PartOf(c) == ToString(PartKey(c) % NParts)
+CasesOf(seed) == CASE seed.fam = "render" -> RowCases(Row(seed.k))
+                   [] seed.fam = "redirect" -> {c \in RedirectUniverse : PartOf(c) = seed.k}
+                   [] seed.fam = "slash" -> {c \in SlashUniverse : PartOf(c) = seed.k}
+                   [] seed.fam = "abort" -> {c \in AbortUniverse : PartOf(c) = seed.k}
+Init == case \in Seeds
+Next == case.op = "seed" /\ case' \in CasesOf(case)
 
 Model(c) == CASE c.op = "render" -> RenderModel(c) [] c.op = "redirect" -> RedirectModel(c) [] c.op = "abort" -> AbortModel(c)
 Clause(c, o) == CASE c.op = "render" -> RenderClause(c, o) [] c.op = "redirect" -> RedirectClause(c, o) [] c.op = "abort" -> AbortClause(c, o)
@@ -153,14 +162,14 @@ PresenceLaw == case.op = "render" /\ case.resp = 0 =>
   /\ Len(ValuesOf(o.headers, H_CT)) = 1
   /\ ValuesOf(o.headers, H_LOC) = <<>>
 \* non-vacuity of the universe: every clause family is exercised (checked once, on the whole table)
-Covered == Family \notin {"render", "all"} \/
-  LET U == RenderUniverse IN
-  /\ \E c \in U : c.arg.k = "m_list" /\ Len(c.arg.vs) = 2
-  /\ \E c \in U : c.arg.k = "t_dt" /\ c.arg.dt[7] # 0
-  /\ \E c \in U : c.arg.k = "t_int" /\ c.arg.n = <<0>>
-  /\ \E c \in U : c.arg.k = "k_key" /\ c.arg.show
-  /\ \E c \in U : c.resp = 1 /\ c.via = "call"
-  /\ \A r \in RenderRows : \E c \in U : c.cls = r.cls /\ c.method = "HEAD"
+Covered == "render" \notin Fams \/
+  LET U(cls) == RowCases(Row(cls)) IN
+  /\ \E c \in U("MethodNotAllowed") : c.arg.k = "m_list" /\ Len(c.arg.vs) = 2
+  /\ \E c \in U("ServiceUnavailable") : c.arg.k = "t_dt" /\ c.arg.dt[7] # 0
+  /\ \E c \in U("ServiceUnavailable") : c.arg.k = "t_int" /\ c.arg.n = <<0>>
+  /\ \E c \in U("BadRequestKeyError") : c.arg.k = "k_key" /\ c.arg.show
+  /\ \E c \in U("NotFound") : c.resp = 1 /\ c.via = "call"
+  /\ \E c \in U("NotFound") : c.method = "HEAD"
 ASSUME Covered
 
 \* ---- export -----------------------------------------------------------------------------------------------------------
